@@ -82,7 +82,7 @@ def decision_table(prog, fn, classify, domains, outcome=None):
                 env.pop(t["dest"]["l"], None)
                 # `mode == Enum::Variant` on a designated input: its verdict under this assignment
                 c_ = calls_by_bb.get(bb)
-                if c_ is not None and (c_.name.endswith("PartialEq>::eq") or c_.name.endswith("PartialEq>::ne")) and "p" not in t["dest"]:
+                if c_ is not None and c_.name.endswith(("PartialEq>::eq", "PartialEq>::ne", "PartialEq::eq", "PartialEq::ne")) and "p" not in t["dest"]:
                     ee_ = flow.enum_eq(fn, flow.Cond("call", bb, call=c_))
                     if ee_ is not None:
                         adt_ = (c_.self_ty or {}).get("adt")
@@ -272,6 +272,21 @@ def explore(prog, fn, assign, classify, models=None, watch=(), max_paths=20000):
                 if c.name in watch:
                     watched.add((c.name, tuple(argvals)))
                 res = std_models(c.name, argvals)
+                if res is None and c.name.endswith(("PartialEq>::eq", "PartialEq>::ne", "PartialEq::eq", "PartialEq::ne")) and len(c.args) == 2:
+                    # `x == Enum::Variant` / `x != Enum::Variant` on a tracked variant set
+                    ee_ = flow.enum_eq(fn, flow.Cond("call", bb, call=c))
+                    if ee_ is not None:
+                        tracked = [a_ for a_ in argvals if a_ is not None]
+                        if len(tracked) == 1:
+                            av_ = tracked[0]
+                            truth = set()
+                            if ee_[0] in av_:
+                                truth.add("1")
+                            if av_ - {ee_[0]}:
+                                truth.add("0")
+                            if c.name.endswith("::ne"):
+                                truth = {"1" if x == "0" else "0" for x in truth}
+                            res = ("B", frozenset(truth))
                 if res is None and models is not None:
                     res = models(c, argvals, [key_of(a) for a in c.args], assign)
                 if c.dest is not None and "p" not in c.dest:
